@@ -302,6 +302,41 @@ def check(prog, rep, tier):
         rep.bad('R14.c', key, file=f2.file, line=line, func=f2.qualname,
                 found='capa_dict[%s] is (re)created for every capability TLV of that code: with one TLV per '
                       'AFI/SAFI only the last one survives' % k, expected='accumulate', key=key)
+    # the OPEN built carries its own optional-parameter length (an Open object may be constructed twice, or after
+    # parse): Opt Parm Len = size of what this call appends
+    from .c08 import run_construct, open_optlen
+    qo_ = OPEN + '.construct'
+    fo_ = prog.func(qo_)
+    outs_o = None
+    for depth_, budget_ in ((2, 15000), (1, 40000)):
+        try:
+            outs_o = run_construct(prog, fo_, depth_, budget_)
+            break
+        except AnalysisError:
+            continue
+    if outs_o is None:
+        rep.undecided('R14.b', 'open-optlen', file=fo_.file, line=fo_.node.lineno, found='path budget exceeded')
+    else:
+        open_optlen(rep, 'R14.b', qo_, fo_, outs_o)
+    # record loops of the OPEN decoder advance by the size of the record they just read, not by a running counter
+    from .c15 import counter_in_advance, cursor_names
+    opf = prog.func(OPEN + '.parse')
+    nl_ = 0
+    for i_, w_ in enumerate(sorted([n for n in ast.walk(opf.node) if isinstance(n, ast.While)], key=lambda n: n.lineno)):
+        nl_ += 1
+        cur_ = cursor_names(w_) | {src_of(n.targets[0]) for n in ast.walk(w_) if isinstance(n, ast.Assign)
+                                   and isinstance(n.value, ast.Subscript) and isinstance(n.value.slice, ast.Slice)
+                                   and src_of(n.value.value) == src_of(n.targets[0])}
+        pr = counter_in_advance(w_, cur_)
+        key = 'record-stride:Open.parse#%d' % i_
+        if pr:
+            rep.bad('R14.a', key, file=opf.file, line=w_.lineno, func=opf.qualname, found=pr,
+                    expected='advance by the size of the record read', key=key)
+        else:
+            rep.ok('R14.a', key, file=opf.file, line=w_.lineno, nontrivial=False)
+    rep.floor('R14.a', 'Open.parse loops', nl_, 4)
+    common.report_signed_formats(prog, rep, 'R14.b', lambda fn: fn.module.name in (
+        'yabgp.message.open', 'yabgp.message.notification', 'yabgp.message.keepalive', 'yabgp.message.route_refresh'), 15)
     common.report_boundary_splits(prog, rep, 'R14.d', lambda fn: fn.module.name in (
         'yabgp.message.open', 'yabgp.message.notification', 'yabgp.message.keepalive', 'yabgp.message.route_refresh'))
     # the capability dispatch is total over the codes 0..255 (finite partition)
